@@ -1,3 +1,20 @@
+/- C10: decoding allocates in proportion to the input, never to a claimed length: theorems about the cost-instrumented
+   decoder (which projects onto the plain decoder) at Gen.env, for every struct-size function, fuel, type and byte string. -/
 import FinProto.Obl.Side
+import FinProto.Props.CostProofs
 namespace FinProto.Obl
+open FinProto
+
+theorem C10_widths : Gen.env.widthsOK = true := gen_widthsOK
+theorem C10_elems : Gen.env.elemsOK = true := gen_elemsOK
+theorem C10_projection (objSize : Nat → Nat) (f ty : Nat) (b : Bytes) :
+    (decTyC Gen.env objSize f ty b).1 = decTy Gen.env f ty b := decTyC_fst Gen.env objSize f ty b
+/-- a length or count read from the wire never makes the decoder request more than 16x the bytes present (+ a schema constant) -/
+theorem C10_request_local (objSize : Nat → Nat) (f ty : Nat) (b : Bytes) :
+    (decTyC Gen.env objSize f ty b).2.maxReq ≤ 16 * b.length + maxConst Gen.env objSize :=
+  decTyC_maxReq objSize gen_widthsOK f ty b
+theorem C10_total_linear (objSize : Nat → Nat) (f ty : Nat) (b : Bytes) :
+    (decTyC Gen.env objSize f ty b).2.alloc ≤ allocConst Gen.env objSize f ty * (b.length + 1) :=
+  decTyC_alloc_linear objSize gen_elemsOK f ty b
+
 end FinProto.Obl
